@@ -32,6 +32,7 @@ FIDE_CTCS = [
     [('OR', 'F0', 'F1', 'F0'), ('AND', 'F1', 'F0', 'F1', 'F0')],           # n-ary disj / conj
     [('NOT', ('OR', 'F1')), ('EQUIVALENCE', 'F0', ('AND', 'F0', 'F1', 'F1'))],
     [('IMPLIES', ('OR', 'F0', 'F1', 'F1', 'F0'), ('NOT', 'F1'))],
+    [('IMPLIES', 'F0', 'F1'), ('IMPLIES', 'F0', 'F1'), ('OR', ('NOT', 'F0'), 'F1'), ('IMPLIES', 'F0', 'F1')],      # repeated rules
 ]
 FIDE_TAG = {'AND': 'conj', 'OR': 'disj', 'NOT': 'not', 'IMPLIES': 'imp', 'EQUIVALENCE': 'eq'}
 
@@ -70,6 +71,8 @@ def fide_emit(shape, cards, names, abstract, opts, trees):
         mand = None
         if ri is not None and len(rels[ri][1]) == 1:
             mand = (cards[ri][0] == 1)
+        elif ri is not None and opts.get('group_member_mandatory') and i == rels[ri][1][0]:
+            mand = True     # FeatureIDE itself writes mandatory="true" on members of alt / or groups; it has no meaning there
         items = []
         if mand is True:
             items.append(('mandatory', 'true'))
@@ -134,15 +137,7 @@ def _fide_rule(t, parent):
 
 def fide_read(tree) -> FeatureModel:
     """FeatureIDEReader._read_feature_model without the file parser."""
-    rd = FeatureIDEReader('unused')
-    root = None
-    ctcs = []
-    for child in tree.getroot():
-        if child.tag == FeatureIDEReader.TAG_STRUCT:
-            root, _ = rd._read_features(child, None)
-        elif child.tag == FeatureIDEReader.TAG_CONSTRAINTS:
-            ctcs.extend(rd._read_constraints(child))
-    return FeatureModel(root, ctcs)
+    return rt.xml_transform(FeatureIDEReader, tree)
 
 
 def fide_ok(shape, cards, names, abstract, opts, ctc_code) -> bool:
@@ -196,7 +191,7 @@ def fide_file(shape, cards, names, abstract, opts, ctc_code) -> list:
     return []
 
 
-FIDE_OPTS = ['mandatory_false', 'abstract_false', 'attr_order', 'graphics', 'description', 'no_constraints_section', 'rule_description', 'trailing', 'properties']
+FIDE_OPTS = ['mandatory_false', 'abstract_false', 'attr_order', 'graphics', 'description', 'no_constraints_section', 'rule_description', 'trailing', 'properties', 'group_member_mandatory']
 
 
 # ---------------------------------------------------------------------------------------------
@@ -230,14 +225,7 @@ def fama_emit(shape, cards, names, opts, ctcs):
 
 def fama_read(tree) -> FeatureModel:
     """XMLReader.transform without the file parser."""
-    rd = XMLReader('unused')
-    fm = None
-    for child in tree.getroot():
-        if child.tag.casefold() == 'feature':
-            fm = FeatureModel(rd.parse_feature(child, None), [])
-        elif child.tag.casefold() in ('excludes', 'requires'):
-            fm.ctcs.append(rd.parse_ctc(child))
-    return fm
+    return rt.xml_transform(XMLReader, tree)
 
 
 def fama_want(shape, cards, names, ctcs):
@@ -248,7 +236,7 @@ def fama_want(shape, cards, names, ctcs):
 def fama_ok(shape, cards, opts) -> bool:
     n = R.n_features(shape)
     names = ['F%d' % i for i in range(n)]
-    ctcs = [('requires', n - 1, 0), ('excludes', 0, n - 1)] if n >= 2 else []
+    ctcs = [('requires', n - 1, 0), ('excludes', 0, n - 1), ('requires', n - 1, 0), ('excludes', 0, n - 1)] if n >= 2 else []     # each element is a constraint, also a repeated one
     got = fama_read(fama_emit(shape, cards, names, opts, ctcs))
     want = fama_want(shape, cards, names, ctcs)
     return wellformed_same(want, got)
@@ -350,7 +338,7 @@ def _glencoe_term(t):
     return {'type': GL_TERM[t[0]], 'operands': [_glencoe_term(x) for x in t[1:]]}
 
 
-GL_CTCS = [[], [('IMPLIES', 'F0', 'F1'), ('XOR', 'F0', 'F1')], [('OR', 'F0', 'F1', 'F2'), ('AND', 'F2', 'F0', 'F1'), ('XOR', 'F1', 'F2', 'F0')], [('EXCLUDES', 'F1', ('NOT', 'F0')), ('EQUIVALENCE', 'F0', 'F1')]]
+GL_CTCS = [[], [('IMPLIES', 'F0', 'F1'), ('XOR', 'F0', 'F1')], [('OR', 'F0', 'F1', 'F2'), ('AND', 'F2', 'F0', 'F1'), ('XOR', 'F1', 'F2', 'F0')], [('EXCLUDES', 'F1', ('NOT', 'F0')), ('EQUIVALENCE', 'F0', 'F1')], [('IMPLIES', 'F0', 'F1'), ('IMPLIES', 'F0', 'F1'), ('EXCLUDES', 'F1', 'F0'), ('EXCLUDES', 'F1', 'F0')]]
 
 
 def gl_ctcs(n, code):
@@ -368,7 +356,7 @@ def glencoe_ok(shape, cards, opts, ctc_code) -> bool:
     trees = gl_ctcs(n, ctc_code)
     d = glencoe_emit(shape, cards, names, opts, trees)
     rd = GlencoeReader('unused')
-    got = FeatureModel(rd._parse_tree(None, d['tree'], d['features']), rd._parse_constraints(d['constraints'], d['features']))
+    got = rt.json_transform(GlencoeReader, d)
     want = R.build(shape, cards, names=names, ctcs=[R.ctc('c%d' % i, nary_fold(t)) for i, t in enumerate(trees)])
     return c08.canon(want) == c08.canon(got) and rt.ctcs_equivalent(want, got, same_names=True)
 
@@ -439,7 +427,7 @@ def _afm_expr(t, opts, top=True):
     return s if (top and not opts.get('paren_top')) else '(' + s + ')'
 
 
-AFM_CTCS = [[], [('REQUIRES', 'B', 'C')], [('EXCLUDES', 'B', 'C'), ('IMPLIES', 'B', ('NOT', 'C'))], [('EQUIVALENCE', ('AND', 'B', 'C'), ('OR', 'B', ('NOT', 'C')))], [('NOT', ('NOT', 'B')), ('OR', ('AND', 'B', 'C'), 'B')]]
+AFM_CTCS = [[], [('REQUIRES', 'B', 'C')], [('EXCLUDES', 'B', 'C'), ('IMPLIES', 'B', ('NOT', 'C'))], [('EQUIVALENCE', ('AND', 'B', 'C'), ('OR', 'B', ('NOT', 'C')))], [('NOT', ('NOT', 'B')), ('OR', ('AND', 'B', 'C'), 'B')], [('REQUIRES', 'B', 'C'), ('REQUIRES', 'B', 'C'), ('EXCLUDES', 'C', 'B'), ('REQUIRES', 'B', 'C')]]
 
 
 def afm_file(shape, cards, opts, ctc_code) -> list:
@@ -507,6 +495,8 @@ def batch_fama(max_n, lo, hi, seed):
         for cards in (allc if len(allc) <= 10 else rnd.sample(allc, 10)):
             for opts in [dict(), {'card_last': 1}, {'upper': 1}, {'attr_order': 1}, {'single_as_set': 1}, {'card_last': 1, 'upper': 1, 'attr_order': 1}]:
                 ctcs = [['requires', n - 1, 0], ['excludes', 0, n - 1]] if n >= 2 else []
+                if n >= 2 and rnd.random() < 0.5:
+                    ctcs = ctcs + [['requires', n - 1, 0], ['excludes', n - 1, 0], ['excludes', 0, n - 1]]
                 args = [shape, cards, None, opts, ctcs]
                 res['instances'] += 1
                 res['native_runs'] += 1
@@ -671,7 +661,7 @@ def conditions(tier, seed):
                               body='P.fide_ok(SHAPE_%d, %s, %r, %r, %s, %d)' % (si, cexpr, ['F%d' % i for i in range(n)], [i % 2 == 1 for i in range(n)], od, code),
                               timeout=T, aspect='FeatureIDE reference document (Element level): cardinalities and surface choices symbolic',
                               sample={'shape': R.shape_str(shape), 'symbolic': 'cards + %d surface Booleans' % len(optnames), 'constraints': str(fide_ctcs(n)[code])[:200]},
-                              validate=[tuple(x for c in fc[0] for x in c) + tuple([False] * len(optnames)), tuple(x for c in fc[-1] for x in c) + tuple([True] * 5 + [False] + [True] * 3)]))
+                              validate=[tuple(x for c in fc[0] for x in c) + tuple([False] * len(optnames)), tuple(x for c in fc[-1] for x in c) + tuple([True] * 5 + [False] + [True] * 4)]))
             pos = (si + seed) % n
             names = ['F%d' % i for i in range(n)]
             nexpr = '[' + ', '.join(('name' if i == pos else repr(names[i])) for i in range(n)) + ']'
